@@ -93,6 +93,9 @@ def materialise(desc):
             idx.append(cnt.get(r[0], 0))
             cnt[r[0]] = idx[-1] + 1
         sc['index'] = idx
+    if k.get('index') == 'checked_concat':
+        sc['rows'] = sorted(sc['rows'], key=lambda r: r[0])        # rows grouped by instrument: what the concat yields
+        sc['assemble'] = 'checked_concat'
     if k.get('index') == 'range_offset':
         sc['index'] = list(range(133, 133 + len(sc['rows'])))          # e.g. df.iloc[133:] / df.tail(n): RangeIndex, start != 0
         sc['index_kind'] = 'range'
